@@ -197,10 +197,11 @@ theorem C12_reread_block_comment {w : Str} (h : BlockCommentWF w) (r : Str) :
 
 example : BlockCommentWF ['/', '*', '/', ' ', '\\', '*', '/'] := ⟨⟨['/', ' ', '\\'], rfl, by decide, by decide⟩⟩
 
-/-- (3) The round trip: a list of well-formed tokens, each followed by a non-empty separator over
-    `charcodes::whitespace` (a newline first after a line comment), printed by the token printers and
-    tokenized, gives back exactly those tokens, no errors, plus one newline token per newline of the
-    separators (and the end-of-source newline when the text ends in blanks). -/
+/-- (3) The round trip: a list of well-formed tokens, each followed by a separator — a character of
+    `charcodes::whitespace` (a newline after a line comment), then any whitespace characters and line
+    continuations (backslash newline) — printed by the token printers and tokenized, gives back exactly those
+    tokens, no errors, plus one newline token per newline of the separators that is not part of a continuation
+    (and the end-of-source newline when the text ends in blanks). -/
 theorem C12_roundtrip {l : List (Tok × Str)} (h : ∀ p ∈ l, ItemWF p) :
     tokenizeBytes (printSeq l) = .ok ⟨expectSeq l, 0⟩ :=
   roundtrip_tokenize h
@@ -211,13 +212,9 @@ theorem C12_roundtrip_tokens {l : List (Tok × Str)} (h : ∀ p ∈ l, ItemWF p)
       res.toks.filter (· != .newline) = l.map (·.1) := by
   refine ⟨_, roundtrip_tokenize h, rfl, ?_⟩
   have hmid : ∀ s : Str, (sepMid s).filter (· != .newline) = [] := by
-    intro s; induction s with
-    | nil => rfl
-    | cons c t ih => unfold sepMid; split <;> simp [ih]
+    intro s; fun_induction sepMid s <;> (try simp_all) <;> (try assumption)
   have hend : ∀ s : Str, (sepEnd s).filter (· != .newline) = [] := by
-    intro s; induction s with
-    | nil => rfl
-    | cons c t ih => unfold sepEnd; split <;> (try split) <;> simp [ih]
+    intro s; fun_induction sepEnd s <;> (try simp_all) <;> (try assumption)
   have hnn : ∀ t, TokWF t → (t != .newline) = true := by
     intro t ht; cases ht <;> simp
   induction l with
@@ -230,8 +227,9 @@ theorem C12_roundtrip_tokens {l : List (Tok × Str)} (h : ∀ p ∈ l, ItemWF p)
     | nil => simp [expectSeq, hnn t ht, hend]
     | cons q l' => simp only [expectSeq] at ih' ⊢; simp [hnn t ht, hmid, ih']
 
-example : ItemWF (.comment ['/', '/', 'x'], ['\n', ' ']) :=
-  ⟨TokWF.lineComment ⟨⟨['x'], rfl, Units.plain (by decide) (by decide) Units.nil⟩⟩, by decide, by decide, fun _ => rfl⟩
+example : ItemWF (.comment ['/', '/', 'x'], ['\n', '\\', '\n', ' ']) :=
+  ⟨TokWF.lineComment ⟨⟨['x'], rfl, Units.plain (by decide) (by decide) Units.nil⟩⟩,
+   SepWF.ws (by decide) (SepWF.cont (SepWF.ws (by decide) SepWF.nil)), by decide, fun _ => rfl⟩
 example : tokenizeBytes (printSeq [(.ident ['a'], [' ']), (.op 2, ['\n', '\t'])]) =
     .ok ⟨[.ident ['a'], .op 2, .newline, .newline], 0⟩ := by decide
 
